@@ -166,6 +166,7 @@ def build():
         A(Contract("pyoak.node:ASTNode.findall", variant_of=variant, params={"self": "Ref", "xpath": xs}, returns="Seq[Ref]", props=["C07"],
                    may_raise=["ASTXpathDefinitionError"] if variant else [],
                    ensures=[f"result == xp_findall({X}, self)"]))
+    find_all_body(world, lib, reg, nv, EL, NI, XP, elem_ok)
     from pyvc.verify import Lemma
     t_, e_ = z3.Const("t_aa", TREE.z3()), z3.Const("e_aa", SE.z3())
     a_, b_ = z3.Const("a_aa", SR.z3()), z3.Const("b_aa", SR.z3())
@@ -192,3 +193,134 @@ def build():
     lem = [Lemma("any_anc-concat", [("base", aa_base), ("step", aa_step)], ["C07"]),
            Lemma("all_in_tree-prefix", [("base", ai_base), ("step", ai_step)], ["C07"])]
     return world, lib, reg, lem
+
+
+def find_all_body(world, lib, reg, nv, EL, NI, XP, elem_ok):
+    """ASTXpath.findall against the top-down semantics TD, a fold over the steps of folds over the work list.
+
+    The dict used as ordered set maps a position key to the info at that position; _position_key(info) is (proved to
+    be) the info's own components, so the dict is abstracted as the *sequence of its values* with add-if-absent
+    (obligation at every insertion: key == the inserted info).
+      TD([], d)            = [(d, None, None, None)]                      d = the dummy root wrapped around the real root
+      TD(E ++ [el], d)     = ST(TD(E, d), el, d)
+      ST(W ++ [n], el, d)  = A1(ST(W, el, d), desc(n.node), el, d)        if el.anywhere   (all proper descendants, pre-order)
+                           = A2(ST(W, el, d), kids(n.node), n.node, el, d)  otherwise        (the children)
+      A1 / A2              = append, in order and only if not yet present, every candidate position that satisfies the
+                             step predicate; a position whose parent is the dummy root is the root: no parent, field, index."""
+    import ast as _ast
+
+    from pyvc.core import mk_snoc
+    from pyvc.symex import RaiseSig
+    from pyvc.values import NONE, EngineError, VBound, VExc, VHeapRef, VNone, VRec
+
+    REF, FLD, INFO, CPOS = nv.REF, nv.FLD, nv.INFO, nv.CPOS
+    OREF, OFLD, OINT = opt_of(REF), opt_of(FLD), opt_of(INT)
+    SX, SI, SC, SE, SR = seq_of(NI), seq_of(INFO), seq_of(CPOS), seq_of(EL), seq_of(REF)
+    dummy_of = z3.Function("dummy_root_of", REF.z3(), REF.z3())
+    elements = z3.Function("xp_elements", XP.z3(), SE.z3())
+    desc = lib.fn("desc", [REF], SI)
+    mkx = lambda n, p, f, i: NI.mk(REF.wrap(n), VOpt(p, OREF), VOpt(f, OFLD), VOpt(i, OINT)).term
+    g = lambda rs, t, f: rs.get(rs.wrap(t).term, f).term
+    rootx = lambda n: mkx(n, OREF.none().term, OFLD.none().term, OINT.none().term)
+    to_x = lambda c: mkx(g(INFO, c, "node"), OREF.some(REF.wrap(g(INFO, c, "parent"))).term, OFLD.some(FLD.wrap(g(INFO, c, "field"))).term, g(INFO, c, "findex"))
+    adj = lambda x, d: z3.If(g(NI, x, "parent") == OREF.some(REF.wrap(d)).term, rootx(g(NI, x, "node")), x)
+    ok = lambda x, el: elem_ok(g(NI, x, "node"), g(NI, x, "field"), g(NI, x, "findex"), el)
+    addif = lambda S, x: z3.If(z3.Contains(S, z3.Unit(x)), S, mk_snoc(S, x))
+    A1 = lib.fn("add_matching_descendants", [SX, SI, EL, REF], SX)
+    A2 = lib.fn("add_matching_children", [SX, SC, REF, EL, REF], SX)
+    ST = lib.fn("xpath_stage", [SX, EL, REF], SX)
+    TD = lib.fn("xpath_top_down", [SE, REF], SX)
+    nodes_of = lib.fn("nodes_of", [SX], SR)
+    A1.rule("A1-empty", 1, "empty")(lambda a, p: a[0])
+    A1.rule("A1-snoc", 1, "snoc")(lambda a, p: z3.If(ok(adj(to_x(p[1]), a[3]), a[2]), addif(A1.t(a[0], p[0], a[2], a[3]), adj(to_x(p[1]), a[3])), A1.t(a[0], p[0], a[2], a[3])))
+
+    def child_x(c, par, d):
+        return z3.If(par == d, rootx(g(CPOS, c, "child")),
+                     mkx(g(CPOS, c, "child"), OREF.some(REF.wrap(par)).term, OFLD.some(FLD.wrap(g(CPOS, c, "field"))).term, g(CPOS, c, "index")))
+
+    A2.rule("A2-empty", 1, "empty")(lambda a, p: a[0])
+    A2.rule("A2-snoc", 1, "snoc")(lambda a, p: z3.If(ok(child_x(p[1], a[2], a[4]), a[3]), addif(A2.t(a[0], p[0], a[2], a[3], a[4]), child_x(p[1], a[2], a[4])),
+                                                     A2.t(a[0], p[0], a[2], a[3], a[4])))
+    ST.rule("ST-empty", 0, "empty")(lambda a, p: z3.Empty(SX.z3()))
+    ST.rule("ST-snoc", 0, "snoc")(lambda a, p: z3.If(g(EL, a[1], "anywhere"), A1.t(ST.t(p[0], a[1], a[2]), desc.t(g(NI, p[1], "node")), a[1], a[2]),
+                                                     A2.t(ST.t(p[0], a[1], a[2]), nv.kids.t(g(NI, p[1], "node")), g(NI, p[1], "node"), a[1], a[2])))
+    TD.rule("TD-empty", 0, "empty")(lambda a, p: z3.Unit(rootx(a[1])))
+    TD.rule("TD-snoc", 0, "snoc")(lambda a, p: ST.t(TD.t(p[0], a[1]), p[1], a[1]))
+    nodes_of.rule("nodes_of-empty", 0, "empty")(lambda a, p: z3.Empty(SR.z3()))
+    nodes_of.rule("nodes_of-cons", 0, "cons")(lambda a, p: z3.Concat(z3.Unit(g(NI, p[0], "node")), nodes_of.t(p[1])))
+    sf = world.spec_fns
+    sf.update({"add_matching_descendants": A1, "add_matching_children": A2, "xpath_stage": ST, "xpath_top_down": TD, "nodes_of": nodes_of, "desc": desc,
+               "xp_elements": lambda x: SE.wrap(elements(x.term)), "dummy_root_of": lambda r: REF.wrap(dummy_of(nv.ref(r)))})
+
+    def in_findall(m):
+        return m.contract.qualname == "ASTXpath.findall"
+
+    def attr(m, obj, name):
+        if isinstance(obj, VU) and obj.sort == XP and name == "_elements":
+            return SE.wrap(elements(obj.term))
+        if in_findall(m) and isinstance(obj, VHeapRef) and m.ctx.cell(obj.addr).kind == "list" and name in ("values", "setdefault"):
+            return VBound(obj, name)
+        return None
+
+    def to_xinfo(m, v, sname):
+        if sname == "XInfo" and isinstance(v, VRec) and v.sort == INFO:
+            return NI.wrap(to_x(v.term))
+        return None
+
+    def call(m, func, a, kw, nd):
+        if isinstance(func, VCls) and func.name == "_DUMMY_XPATH_ROOT":
+            return REF.wrap(dummy_of(REF.coerce(a[0]).term))
+        if in_findall(m) and isinstance(func, VBound) and isinstance(func.recv, VHeapRef):
+            cell = m.ctx.cell(func.recv.addr)
+            if func.name == "values":
+                return func.recv
+            if func.name == "setdefault":
+                key = NI.coerce(a[0])
+                val = a[1] if isinstance(a[1], VRec) and a[1].sort == NI else to_xinfo(m, a[1], "XInfo")
+                if val is None:
+                    raise EngineError("setdefault of something that is not a position info")
+                m.ctx.check(key.term == val.term, f"{m.contract.key}/ordered-set/key-is-the-position-of-the-inserted-info", "model")
+                cur = cell.value if cell.value is not None else SX.empty()
+                if m.ctx.branch(z3.Contains(cur.term, z3.Unit(val.term))):
+                    return val
+                t = mk_snoc(cur.term, val.term)
+                m.ctx.bank.add(t, ("snoc", cur.term, val.term))
+                cell.value = VSeq(t, SX)
+                return val
+        return NotImplemented
+
+    def dict_display(m, e, hint):
+        if not in_findall(m):
+            return None
+        vals = []
+        for k, v in zip(e.keys, e.values):
+            kv, vv = NI.coerce(m.eval(k)), NI.coerce(m.eval(v))
+            m.ctx.check(kv.term == vv.term, f"{m.contract.key}/ordered-set/key-is-the-position-of-the-inserted-info", "model")
+            vals.append(vv)
+        return VHeapRef(m.ctx.alloc("list", SX.coerce(VTuple(vals)) if vals else SX.empty()), "list")
+
+    world.attr_hooks.insert(0, attr)
+    world.call_hooks.insert(0, call)
+    world.dict_display_hook = dict_display
+    world.coerce_hooks = getattr(world, "coerce_hooks", []) + [to_xinfo]
+    world.comp_hooks = {**getattr(world, "comp_hooks", {}), "n_info.node for n_info in": lambda m, sv, gen, e: SR.wrap(nodes_of.t(sv.term))}
+    world.name_hooks.append(lambda m, n: VCls(n) if n in ("_DUMMY_XPATH_ROOT", "_NodeTraversalInfo", "NodeTraversalInfo") else None)
+    A = reg.add
+    P = ["C07"]
+    A(Contract("pyoak.node:ASTNode.dfs", params={"self": "Ref", "prune": "Opt[Fn]", "filter": "Opt[Fn]", "bottom_up": "bool"}, returns="Seq[Info]", props=P, trusted=True,
+               trusted_reason="proved under C05 (contracts.node_traversal): with no prune / filter, top-down, the stream of all proper-descendant positions in pre-order, desc(self)",
+               ensures=["implies(prune is None and filter is None and not bottom_up, result == desc(self))"]))
+    A(Contract("pyoak.node:ASTNode.get_child_nodes_with_field", params={"self": "Ref", "sort_keys": "bool"}, returns="Seq[ChildPos]", props=P, trusted=True,
+               trusted_reason="the specialised accessor generated per class, proved under C12 (== kids(self), declaration order)", ensures=["result == kids(self)"]))
+    A(Contract(f"{XM_}:_position_key", params={"n_info": "XInfo"}, returns="XInfo", props=P, ensures=["result == n_info"],
+               note="id() of the four components: the identity of the position (id modelled as the object itself, injective on live objects)"))
+    A(Contract(f"{XM_}:ASTXpath.findall", variant_of="body", params={"self": "XPathObj", "root": "Ref"}, returns="Seq[Ref]", generator=True, props=P,
+               requires=["len(xp_elements(self)) > 0"],
+               locals={"work": "List[XInfo]", "new_work": "List[XInfo]"},
+               ensures=["result == nodes_of(xpath_top_down(xp_elements(self), dummy_root_of(root)))"],
+               loops={1: Loop(inv=["work == xpath_top_down(done1, dummy_root)", "implies(len(done1) > 0, new_work == work)"]),
+                      2: Loop(inv=["new_work == xpath_stage(done2, el, dummy_root)", "seq2 == work_at2"]),
+                      3: Loop(inv=["new_work == add_matching_descendants(new_work_at3, done3, el, dummy_root)", "seq3 == desc(n_info.node)"]),
+                      4: Loop(inv=["new_work == add_matching_children(new_work_at4, done4, n_info.node, el, dummy_root)", "seq4 == kids(n_info.node)"])},
+               note="the nodes of the positions selected by the top-down semantics TD over the path's steps, in first-insertion order, each position once"))
+    reg.contracts[f"{XM_}:ASTXpath.findall#body"].fn = f"{XM_}:ASTXpath.findall"
